@@ -420,7 +420,7 @@ impl<T: RealNumber + ScalarOperand + AddAssign + SubAssign + MulAssign + DivAssi
     fn softmax_mut(&mut self) {
         let max = self
             .iter()
-            .map(|x| x.abs())
+            .copied()
             .fold(T::neg_infinity(), |a, b| a.max(b));
         let mut z = T::zero();
         for r in 0..self.nrows() {
